@@ -22,7 +22,7 @@ def run(tier):
     unit = vlib.build_harness('unit', 'asan', exclude=EXCLUDE)
     lean_stage(chk, THEOREMS, IMPORTS, TARGETS)
     big = tier == 'thorough'
-    m = 1 if not big else 25
+    m = 1 if not big else 6
     cases = [Case('corpus', r) for r in load_corpus(PID)]
     cases += gens_block.gen_block_malformed(rng.fork('bm'), 500 * m) + gens_block.gen_block_mut_built(rng.fork('bmb'), 250 * m) + gens_block.gen_block_crafted(rng.fork('bc'), 300 * m)
     cases += gens_filter.gen_bloom_malformed(rng.fork('blm'), 200 * m) + gens_filter.gen_filter_malformed(rng.fork('fm'), 300 * m) + gens_filter.gen_handle_footer_malformed(rng.fork('hfm'), 200 * m)
